@@ -257,7 +257,12 @@ func applyOpsSpec(cues []plainCue, ops []convOp) []plainCue {
 			var o []plainCue
 			for _, c := range cues {
 				cur := c.Start
-				for b := (c.Start/op.f + 1) * op.f; b < c.End; b += op.f {
+				// first multiple of f strictly after the start (floor division: intermediate times may be negative)
+				q := c.Start / op.f
+				if c.Start%op.f < 0 {
+					q--
+				}
+				for b := (q + 1) * op.f; b < c.End; b += op.f {
 					o = append(o, plainCue{cur, b, c.Lines})
 					cur = b
 				}
